@@ -466,7 +466,21 @@ class PVLEncoder(object):
             return True
 
         tok = Token(s, grammar=self.grammar, decoder=self.decoder)
-        return not tok.is_unquoted_string()
+        if not tok.is_unquoted_string():
+            return True
+
+        return not self.decodes_to_itself(s)
+
+    def decodes_to_itself(self, s: str) -> bool:
+        """Returns true if the text *s*, written without quotes, would
+        be read back as the identical string by this encoder's decoder,
+        and not as a keyword (NULL, TRUE, FALSE, END, GROUP ... in any
+        letter case), a number, or anything else.
+        """
+        try:
+            return self.decoder.decode_simple_value(s) == s
+        except ValueError:
+            return False
 
     def encode_string(self, value) -> str:
         """Returns a ``str`` formatted as a PVL String based
@@ -635,7 +649,10 @@ class ODLEncoder(PVLEncoder):
 
         Overrides parent function.
         """
-        return not self.decoder.is_identifier(s)
+        if not self.decoder.is_identifier(s):
+            return True
+
+        return not self.decodes_to_itself(s)
 
     def is_assignment_statement(self, s) -> bool:
         """Returns true if *s* is an ODL Assignment Statement, false otherwise.
@@ -751,7 +768,7 @@ class ODLEncoder(PVLEncoder):
         """Extends parent function by appropriately quoting Symbol
         Strings.
         """
-        if self.decoder.is_identifier(value):
+        if not self.needs_quotes(value):
             return value
         elif self.is_symbol(value):
             return "'" + value + "'"
@@ -1073,7 +1090,7 @@ class PDSLabelEncoder(ODLEncoder):
         which typically means that they are double-quoted and not
         single-quoted.
         """
-        if self.decoder.is_identifier(value):
+        if not self.needs_quotes(value):
             return value
         elif self.is_symbol(value) and self.symbol_single_quote:
             return "'" + value + "'"
